@@ -17,8 +17,10 @@ type Registry struct {
 	poolVRFs         map[string]string
 	ianaAllocators   map[string]*PoolAllocator
 	profileIANAPools map[string][]string
+	ianaPoolVRFs     map[string]string
 	pdAllocators     map[string]*PrefixAllocator
 	profilePDPools   map[string][]string
+	pdPoolVRFs       map[string]string
 	mu               sync.RWMutex
 }
 
@@ -53,8 +55,10 @@ func newRegistry(v4Profiles map[string]*ip.IPv4Profile, v6Profiles map[string]*i
 		poolVRFs:         make(map[string]string),
 		ianaAllocators:   make(map[string]*PoolAllocator),
 		profileIANAPools: make(map[string][]string),
+		ianaPoolVRFs:     make(map[string]string),
 		pdAllocators:     make(map[string]*PrefixAllocator),
 		profilePDPools:   make(map[string][]string),
+		pdPoolVRFs:       make(map[string]string),
 	}
 
 	r.initV4Pools(v4Profiles)
@@ -149,7 +153,7 @@ func (r *Registry) initV6Pools(profiles map[string]*ip.IPv6Profile) {
 			key := profileName + "/" + pool.Name
 			ianaNames[i] = key
 			if pool.VRF != "" {
-				r.poolVRFs[key] = pool.VRF
+				r.ianaPoolVRFs[key] = pool.VRF
 			}
 
 			if _, exists := r.ianaAllocators[key]; exists {
@@ -193,7 +197,7 @@ func (r *Registry) initV6Pools(profiles map[string]*ip.IPv6Profile) {
 			key := profileName + "/" + pool.Name
 			pdNames[i] = key
 			if pool.VRF != "" {
-				r.poolVRFs[key] = pool.VRF
+				r.pdPoolVRFs[key] = pool.VRF
 			}
 
 			if _, exists := r.pdAllocators[key]; exists {
@@ -285,7 +289,7 @@ func (r *Registry) AllocateIANAFromProfile(profileName, poolOverride, subscriber
 	}
 
 	for _, poolName := range r.profileIANAPools[profileName] {
-		poolVRF := r.poolVRFs[poolName]
+		poolVRF := r.ianaPoolVRFs[poolName]
 		if poolVRF != subscriberVRF {
 			continue
 		}
@@ -321,7 +325,7 @@ func (r *Registry) AllocatePDFromProfile(profileName, poolOverride, subscriberVR
 	}
 
 	for _, poolName := range r.profilePDPools[profileName] {
-		poolVRF := r.poolVRFs[poolName]
+		poolVRF := r.pdPoolVRFs[poolName]
 		if poolVRF != subscriberVRF {
 			continue
 		}
